@@ -68,4 +68,23 @@ def execute (server : Nat) (rootOf : Nat → Nat) (W : V.World) (fuel : Nat) (sv
     (invs : List V.View) (order : List Receipt → List Receipt) : Message :=
   build [] (order (invs.map (receiptOf server rootOf W fuel svc)))
 
+/-- first occurrences only -/
+def dedup : List Nat → List Nat
+  | [] => []
+  | x :: xs => x :: (dedup xs).filter (· != x)
+
+/-- the blocks a delegation carries in its own store when it is issued with `Delegate`: its root and,
+for every proof embedded as blocks, everything that proof carries (`Proofs.WriteInto`) -/
+def storeOf (toks : Array V.Token) (inl : Array (List Bool)) : Nat → Nat → List Nat
+  | 0, i => [i]
+  | fuel+1, i =>
+    match toks[i]? with
+    | none => [i]
+    | some t =>
+      let flags := (inl[i]?).getD []
+      let subs := (t.prfs.zip flags).flatMap fun pf =>
+        if pf.2 && pf.1 < toks.size then storeOf toks inl fuel pf.1 else []
+      dedup (i :: subs)
+
+
 end Msg
